@@ -1,4 +1,4 @@
-(** C11 model of internal/reporter/reporter.go (as it is after fixes 980af37, 1588b37 and its follow-up), json.go and the skeleton of
+(** C11 model of internal/reporter/reporter.go (as it is after fixes 980af37, 1588b37, d8f60c6 and 346020d), json.go and the skeleton of
     console.go:  Report, isEqual, Summary.Report/hasReport, SortReports (diagnostic sort + 8-key stable sort
     incl. cmpDiagnostics), Dedup, CountBySeverity, JSON / console rendering.
 
@@ -103,12 +103,22 @@ Definition k7 : cmpf report :=
   lex (on r_path String.compare) (lex (on r_lfirst Z.compare) (lex (on r_llast Z.compare) (lex (on r_sev Z.compare)
   (lex (on r_reporter String.compare) (lex (on r_summary String.compare) (on r_details String.compare)))))).
 
-(** cmpDiagnostics(sa, sb) < 0 on the slices as they are after its two SortStableFunc(.., cmpDiags) calls *)
+(** slices.CompareFunc(sa, sb, cmpDiags): element-wise, the shorter list first when one is a prefix of the other *)
+Fixpoint lcmp (sa sb : list diag) : comparison :=
+  match sa, sb with
+  | [], [] => Eq
+  | [], _ :: _ => Lt
+  | _ :: _, [] => Gt
+  | x :: ra, y :: rb => match dcmp x y with Eq => lcmp ra rb | c => c end
+  end.
+
+(** cmpDiagnostics(sa, sb) < 0 on the slices as they are after its two SortStableFunc(.., cmpDiags) calls; since fix
+    346020d the whole sorted lists are compared (before: only sa[0] and sb[0]) *)
 Definition cmp_diagnostics_neg (sa sb : list diag) : bool :=
   match sa, sb with
   | [], _ => true               (* len(sa)==0 -> -1, also when sb is empty *)
   | _ :: _, [] => false         (* 1 *)
-  | x :: _, y :: _ => diag_lt x y
+  | _ :: _, _ :: _ => match lcmp sa sb with Lt => true | _ => false end
   end.
 
 (** cmp.Or(k1..k7, cmpDiagnostics) < 0 *)
@@ -119,20 +129,13 @@ Definition report_lt (a b : report) : bool :=
   | Eq => cmp_diagnostics_neg (fsort (r_diags a)) (fsort (r_diags b))
   end.
 
-(** The sort key as data: seven fields + the first diagnostic under cmpDiags (columns, message, Pos). *)
+(** The sort key as data: seven fields + ALL diagnostics in cmpDiags order (columns, message, Pos). *)
+Definition dkey (d : diag) := (dg_first d, dg_last d, dg_msg d, dg_extra d).
 Definition sort_key (r : report) :=
-  (r_path r, r_lfirst r, r_llast r, r_sev r, r_reporter r, r_summary r, r_details r,
-   match fsort (r_diags r) with [] => None | d :: _ => Some (dg_first d, dg_last d, dg_msg d, dg_extra d) end).
+  (r_path r, r_lfirst r, r_llast r, r_sev r, r_reporter r, r_summary r, r_details r, map dkey (fsort (r_diags r))).
 
-Definition odcmp : cmpf (option diag) := fun a b =>
-  match a, b with
-  | None, None => Eq
-  | None, Some _ => Lt
-  | Some _, None => Gt
-  | Some x, Some y => dcmp x y
-  end.
 (** the genuine order the comparator implements when no two compared reports tie *)
-Definition kcmp : cmpf report := lex k7 (on (fun r => hd_error (fsort (r_diags r))) odcmp).
+Definition kcmp : cmpf report := lex k7 (on (fun r => fsort (r_diags r)) lcmp).
 
 (** Summary.SortReports *)
 Definition sort_reports (l : list report) : list report := go_stable_sort report_lt (map norm l).
